@@ -36,9 +36,11 @@ pub enum InvKind {
     /// A different invoice for the same hash with the SAME amount and payee
     /// (other description).
     AltSameAmount,
+    /// A route hint (`r` field) without any hop.
+    EmptyHint,
 }
 
-pub const KINDS: [InvKind; 10] = [
+pub const KINDS: [InvKind; 11] = [
     InvKind::Fixed,
     InvKind::Amountless,
     InvKind::SelfHint,
@@ -49,6 +51,7 @@ pub const KINDS: [InvKind; 10] = [
     InvKind::MixedHintSelfFirst,
     InvKind::MixedHintSelfLast,
     InvKind::AltSameAmount,
+    InvKind::EmptyHint,
 ];
 
 pub struct Inv {
@@ -176,6 +179,7 @@ fn build_pool() -> Pool {
             match kind {
                 InvKind::SelfHint => b = b.private_route(hint(local_pubkey)),
                 InvKind::OtherHint => b = b.private_route(hint(other_pubkey)),
+                InvKind::EmptyHint => b = b.private_route(RouteHint(vec![])),
                 InvKind::MixedHintSelfFirst => {
                     b = b.private_route(hint(local_pubkey)).private_route(hint(other_pubkey))
                 }
@@ -963,7 +967,8 @@ pub fn gen_set(content_seed: u64, set_ix: u32, cfg: &RunCfg, force_hash: Option<
     }
 
     // Trampoline-looking sets.
-    let kind = match r.below(12) {
+    let kind = match r.below(13) {
+        12 => InvKind::EmptyHint,
         0..=3 => InvKind::Fixed,
         4..=5 => InvKind::Amountless,
         6 => InvKind::SelfHint,
